@@ -258,6 +258,43 @@ theorem tag_is_existing_variant (tags : List Str) (s : Str) (t : Str)
     · rcases List.mem_map.mp hm with ⟨c, _, rfl⟩
       rfl
 
+/-- **tag_precedence** — the tag fall-back tries the version's variants from most to least specific
+    (`v<major.minor.patch-suffix>`, `v<major.minor.patch>`, `v<major.minor>`, `v<major>`) and takes the first that exists;
+    if none exists there is no tag. -/
+theorem tag_precedence (tags : List Str) (s : Str) (v : Variants) (hv : variantsOf s = some v) :
+    (∀ w, v.withSuffix = some w → ('v' :: w) ∈ tags → findMatchingTag tags (some s) = .ok (some ('v' :: w))) ∧
+    ((∀ w, v.withSuffix = some w → ('v' :: w) ∉ tags) → ('v' :: v.withPatch) ∈ tags →
+        findMatchingTag tags (some s) = .ok (some ('v' :: v.withPatch))) ∧
+    ((∀ w, v.withSuffix = some w → ('v' :: w) ∉ tags) → ('v' :: v.withPatch) ∉ tags → ('v' :: v.withMinor) ∈ tags →
+        findMatchingTag tags (some s) = .ok (some ('v' :: v.withMinor))) ∧
+    ((∀ w, v.withSuffix = some w → ('v' :: w) ∉ tags) → ('v' :: v.withPatch) ∉ tags → ('v' :: v.withMinor) ∉ tags →
+        ('v' :: v.withMajor) ∈ tags → findMatchingTag tags (some s) = .ok (some ('v' :: v.withMajor))) ∧
+    ((∀ w, v.withSuffix = some w → ('v' :: w) ∉ tags) → ('v' :: v.withPatch) ∉ tags → ('v' :: v.withMinor) ∉ tags →
+        ('v' :: v.withMajor) ∉ tags → findMatchingTag tags (some s) = .ok none) := by
+  unfold findMatchingTag
+  simp only [hv]
+  cases hs : v.withSuffix with
+  | none =>
+    refine ⟨fun w hw => by simp at hw, fun _ h1 => ?_, fun _ h1 h2 => ?_, fun _ h1 h2 h3 => ?_, fun _ h1 h2 h3 => ?_⟩
+    · simp [h1]
+    · simp [h1, h2]
+    · simp [h1, h2, h3]
+    · simp [h1, h2, h3]
+  | some w0 =>
+    refine ⟨fun w hw hin => ?_, fun h0 h1 => ?_, fun h0 h1 h2 => ?_, fun h0 h1 h2 h3 => ?_, fun h0 h1 h2 h3 => ?_⟩
+    · injection hw with hw; subst hw
+      simp [hin]
+    · have := h0 w0 rfl
+      simp [this, h1]
+    · have := h0 w0 rfl
+      simp [this, h1, h2]
+    · have := h0 w0 rfl
+      simp [this, h1, h2, h3]
+    · have := h0 w0 rfl
+      simp [this, h1, h2, h3]
+
+example : findMatchingTag ["v7".toList, "v7.3".toList, "v8".toList] (some "7.3.1".toList) = .ok (some "v7.3".toList) := by decide
+
 /-- the decimal numeral the model renders for a number (`str(int)` in the code) reads back as that number
     (`int(str)`): the branch names built from version components denote those components -/
 theorem numeral_roundtrip (n : Nat) : digitsVal (natStr n) = n := by
